@@ -11,7 +11,8 @@ from .. import bootstrap, harness, monitors, games
 PID = "C07"
 LEVEL = "exploration"
 RULE = ("random digraphs as transition lists (n=1..60: self-loops, parallel edges, empty rows, unreachable parts, "
-        "diamonds/joins), deep chains/combs/ladders/rings up to 2*10^4 states, transition lists of tall and wide "
+        "diamonds/joins), deep chains/combs/ladders/rings up to 2*10^4 states, HUGE graphs past the round sizes 2^16/10^5/2^20/10^6 (/2^21 thorough): "
+        "chains of 1.05e6 (2.2e6) states, stars of 1.2e6, complete digraphs with 2.56e6 (4.4e6) transitions, a state with 1.1e6 parallel transitions; transition lists of tall and wide "
         "generated boards, and every call made by solve() on generated games; finals in any order with repetitions. "
         "A case is non-trivial when the graph has a self-loop on a non-final state, a parallel edge, or a state that reaches "
         "the finals through two different predecessors-paths (join); distinct = distinct (edges, finals) hash.")
@@ -111,6 +112,16 @@ def gen_deep(kind, n):
     if kind == "ring":
         tl = [[(0.5, (i + 1) % n), (0.5, i)] for i in range(n)]
         return tl, [0]
+    if kind == "star":             # every state moves straight to the final state: the whole graph is pending at once
+        tl = [[(1, 0)] for _ in range(n)]
+        return tl, [0]
+    if kind == "fan":              # one state with n parallel transitions into the final state (n entries for it in the reversed table)
+        tl = [[(1, 0)], [("a", 0)] * n, [(1, 1)]]
+        return tl, [0]
+    if kind == "dense":            # complete digraph: n*n transitions, every state is queued once per transition into the found part
+        row = [("a", v) for v in range(n)]
+        tl = [list(row) for _ in range(n)]
+        return tl, [n - 1]
     raise KeyError(kind)
 
 
@@ -132,6 +143,10 @@ def board_tl(length, width, variant, seed):
 DEEP = [("chain", 100), ("chain", 1000), ("chain", 5000), ("rchain", 1000), ("rchain", 5000), ("comb", 2000),
         ("ladder", 1000), ("ladder", 4000), ("ring", 1500), ("comb", 10000)]
 DEEP_T = DEEP + [("chain", 20000), ("rchain", 20000), ("ladder", 20000), ("ring", 20000)]
+# sizes beyond the round numbers at which size-dependent code paths (progress reports, backlog compaction, chunking) would start:
+# 2^16, 10^5, 2^20, 10^6 (quick) and 2^21 (thorough)
+HUGE = [("chain", 70000), ("chain", 1050000), ("star", 1200000), ("dense", 1600), ("rchain", 140000)]
+HUGE_T = HUGE + [("chain", 2200000), ("star", 2200000), ("fan", 1100000), ("ladder", 1100000), ("dense", 2100), ("ring", 1050000), ("comb", 2100000)]
 BOARDS = [(200, 3, "a"), (200, 3, "c"), (400, 1, "b"), (1, 200, "a"), (1, 200, "c"), (60, 5, "b")]
 
 
@@ -140,6 +155,7 @@ def plan(tier, seed):
     b = harness.split("RND", 3000 if q else 50000, 250 if q else 2000)
     deep = DEEP if q else DEEP_T
     b += [{"cls": "DEEP", "start": i, "count": 1} for i in range(len(deep))]
+    b = [{"cls": "HUGE", "start": i, "count": 1} for i in range(len(HUGE if q else HUGE_T))] + b       # the long ones first
     b += [{"cls": "BOARD", "start": i, "count": 1} for i in range(len(BOARDS) if not q else 4)]
     b += harness.split("SOLVE", 400 if q else 6000, 100 if q else 500)
     return b
@@ -229,6 +245,15 @@ def run_batch(batch):
             r["case"] = {"deep": [kind, n]} if r["verdict"] == "violated" else None
             r["tags"].append("deep:%s:%d" % (kind, n))
             yield r
+        elif cls == "HUGE":
+            kind, n = (HUGE if tier == "quick" else HUGE_T)[idx]
+            tl, finals = gen_deep(kind, n)
+            r = _decide(tl, finals, idx, cls)
+            r["case"] = {"deep": [kind, n]} if r["verdict"] == "violated" else None
+            r["tags"].append("huge:%s:%d" % (kind, n))
+            r["stats"]["max_transitions"] = sum(len(row) for row in tl)
+            del tl
+            yield r
         elif cls == "BOARD":
             length, width, var = BOARDS[idx]
             tl, finals = board_tl(length, width, var, seed + idx)
@@ -284,7 +309,7 @@ def on_crash(c):
     # only a death of the interpreter itself (signal / fatal error) while the real search was running counts;
     # an ordinary traceback is a harness problem and stays inconclusive
     fatal = (c["returncode"] is not None and c["returncode"] < 0) or "Fatal Python error" in c["stderr"]
-    if c["batch"].get("cls") in ("DEEP", "BOARD") and not c["killed"] and fatal and c["inflight"] is not None:
+    if c["batch"].get("cls") in ("DEEP", "BOARD", "HUGE") and not c["killed"] and fatal and c["inflight"] is not None:
         return {"idx": c["inflight"], "cls": c["batch"]["cls"], "verdict": "violated",
                 "what": "interpreter died during a deep backward search: " + c["why"],
                 "case": {"spec": [c["batch"]["cls"], c["inflight"]]}, "witness": c["stderr"][-800:]}
